@@ -118,6 +118,7 @@ type Run struct {
 	classes   map[uint64]struct{}
 	kf        []knownFinding
 	journal   *os.File
+	violLog   string // child: every violation is appended here at once (survives a later fatal error of the process)
 	verbose   bool
 }
 
@@ -256,6 +257,13 @@ func (r *Run) addViolation(c *C, sig, what string, detail interface{}) {
 		}
 		os.WriteFile(path, b, 0o644)
 		v.Replay = path
+		if r.violLog != "" {
+			if f, err := os.OpenFile(r.violLog, os.O_WRONLY|os.O_CREATE|os.O_APPEND, 0o644); err == nil {
+				line, _ := json.Marshal(map[string]interface{}{"signature": v.Signature, "what": v.What, "sub": v.Sub, "index": v.Index, "replay": path})
+				f.Write(append(line, '\n'))
+				f.Close()
+			}
+		}
 	}
 }
 
@@ -465,6 +473,8 @@ func childMain(spec *Spec, tier string, seed int64, only string, workers, round 
 		r.journal = jf
 		jf.Truncate(int64(journalRec * (workers + 1)))
 	}
+	r.violLog = filepath.Join(workDir(), fmt.Sprintf("%s.viol.%d.jsonl", spec.Property, round))
+	os.Remove(r.violLog)
 	start := time.Now()
 	go memWatchdog(spec.Property)
 	var broken []string
@@ -790,6 +800,24 @@ func supervise(spec *Spec, tier string, seed int64, workers int) int {
 				total.Replays[sig] = path
 			}
 			total.ViolCount++
+		}
+		// what the dead child had already found (its result file was never written)
+		if vb, err := os.ReadFile(filepath.Join(wd, fmt.Sprintf("%s.viol.%d.jsonl", spec.Property, round))); err == nil {
+			for _, line := range strings.Split(string(vb), "\n") {
+				var lv struct {
+					Signature, What, Sub, Replay string
+					Index                        int
+				}
+				if line == "" || json.Unmarshal([]byte(line), &lv) != nil || lv.Signature == "" {
+					continue
+				}
+				total.ViolCount++
+				if !violSeen[lv.Signature] {
+					violSeen[lv.Signature] = true
+					total.Violations = append(total.Violations, &violation{Signature: lv.Signature, What: lv.What, Sub: lv.Sub, Index: lv.Index, Seed: seed, Tier: tier, Property: spec.Property, Replay: lv.Replay})
+					total.Replays[lv.Signature] = lv.Replay
+				}
+			}
 		}
 		if confirmed == 0 {
 			fatalNotes = append(fatalNotes, fmt.Sprintf("round %d: child ended abnormally (hung=%v, %v) but no in-flight case reproduced it in isolation; log tail: %s", round, hung, werr, strings.Join(tail, " | ")))
